@@ -108,7 +108,8 @@ def make_dll_atomicity(reg):
                             de = d.e if is_str_sym(d) else z3.StringVal(d)
                             same_fs = z3.Or(de == dirname(want), de == cache_dir)
                     reg.prove("%s.make_dll.G2_compiler_output_is_private_to_this_call_and_in_the_cache_directory.%s"
-                              % (PROP, tag), pc, z3.And(z3.BoolVal(private), same_fs), function=fn, replay=rp,
+                              % (PROP, tag), pc, z3.And(z3.BoolVal(private), same_fs), function=fn,
+                              replay=lambda m=None: _either(replay_two_builders, replay_partial_library_visible),
                               describe="the compiler writes to a name created by mkstemp/mkdtemp(dir=cache directory) in this call")
                 # G3: every modification of a path that may be the final name is the one rename
                 bad_mod = []
@@ -153,12 +154,92 @@ def make_dll_atomicity(reg):
                               function=fn, replay=rp)
 
 
+def compile_model_contract(reg):
+    """kerneldll.compile_model: returns normally only if the compiler exited with status 0 AND the
+    output exists; any compiler failure (non-zero exit, killed) raises, whether or not a (partial)
+    output file is present."""
+    import os.path
+    import subprocess
+    from vp.pyvc import Interp, Sym, Summary, IRaise
+    fn = "sasmodels.kerneldll.compile_model"
+
+    def body(it):
+        import sasmodels.kerneldll as live
+        ok, present = z3.Bool("compiler_exit_status_is_zero"), z3.Bool("output_exists_afterwards")
+        it.summaries["sasmodels.kerneldll.compile_command"] = Summary(
+            lambda it_, a, k: it_.new_list(["cc", "model.c", "-o", "out.so"]), "compile_command", contract=False)
+
+        def check_output(it_, a, k):
+            if not it_.decide(ok):
+                raise IRaise(subprocess.CalledProcessError(-9, ["cc"], output=b"killed"))
+            return b""
+        it.models[subprocess.check_output] = check_output
+        it.models[os.path.exists] = lambda it_, a, k: Sym(present)
+        it.models[live.logging.info] = lambda it_, a, k: None
+        it.models[live.logging.warning] = lambda it_, a, k: None
+        it.models[live.logging.error] = lambda it_, a, k: None
+        it.poison_one_arm = False
+        f = it.get_func("sasmodels.kerneldll", "compile_model")
+        raised = None
+        try:
+            it.call(f, [], {"source": "model.c", "output": "out.so"})
+        except IRaise as exc:
+            raised = exc.value
+        reg.prove("%s.compile_model.returns_normally_only_after_a_successful_compile_with_output" % PROP, it.pc,
+                  z3.BoolVal(raised is not None) if False else
+                  (z3.And(ok, present) if raised is None else z3.BoolVal(True)), function=fn,
+                  replay=lambda m=None: replay_killed_compiler())
+        reg.prove("%s.compile_model.failure_raises_RuntimeError" % PROP, it.pc,
+                  z3.BoolVal(raised is None or isinstance(raised, RuntimeError)), function=fn,
+                  replay=lambda m=None: replay_killed_compiler())
+    it = Interp(reg)
+    it.run_paths(body)
+
+
+def replay_killed_compiler():
+    """Real compile_model with a compiler that writes half of the output and is then killed."""
+    import os
+    import sys
+    import shutil
+    import tempfile
+    from sasmodels import kerneldll
+    work = tempfile.mkdtemp(prefix="verif_c18k_")
+    old = kerneldll.compile_command
+    script = os.path.join(work, "cc.py")
+    open(script, "w").write("import sys, os\nopen(sys.argv[1], 'wb').write(b'x' * 100)\nos.kill(os.getpid(), 9)\n")
+    out = os.path.join(work, "out.so")
+    try:
+        kerneldll.compile_command = lambda source, output: [sys.executable, script, output]
+        try:
+            kerneldll.compile_model(source=os.path.join(work, "m.c"), output=out)
+            res = "returned normally"
+        except RuntimeError as exc:
+            res = "RuntimeError"
+        except Exception as exc:      # noqa
+            res = repr(exc)[:100]
+    finally:
+        kerneldll.compile_command = old
+        shutil.rmtree(work, ignore_errors=True)
+    return res != "RuntimeError", {"call": "kerneldll.compile_model with a compiler killed after writing part of the output",
+                                   "real": res, "spec": "RuntimeError"}
+
+
 def _implied(pc, f):
     s = z3.Solver()
     s.set("timeout", 10000)
     s.add(*pc)
     s.add(z3.Not(f))
     return s.check() == z3.unsat
+
+
+def _either(*replays):
+    """First replay adapter that reproduces a violation."""
+    last = (False, {})
+    for r in replays:
+        last = r()
+        if last[0]:
+            return last
+    return last
 
 
 def string_lemma(reg):
@@ -322,6 +403,99 @@ def replay_partial_library_visible():
                  "real": out, "spec": "the final cache name does not exist until the library is complete"}
 
 
+SCRIPT2 = r'''
+import sys, os, time
+real, out, flags = sys.argv[1], sys.argv[2], sys.argv[3]
+me = None
+for k in (0, 1):
+    try:
+        os.close(os.open(os.path.join(flags, "id%d" % k), os.O_CREAT | os.O_EXCL))
+        me = k
+        break
+    except FileExistsError:
+        pass
+data = open(real, "rb").read()
+def wait(name):
+    t0 = time.time()
+    while not os.path.exists(os.path.join(flags, name)) and time.time() - t0 < 30:
+        time.sleep(0.01)
+def flag(name):
+    open(os.path.join(flags, name), "w").close()
+if me == 0:
+    open(out, "wb").write(data)
+    flag("done0"); wait("release0")
+else:
+    with open(out, "wb") as fd:
+        fd.write(data[:len(data)//2]); fd.flush(); os.fsync(fd.fileno())
+        flag("half1"); wait("go1")
+        fd.write(data[len(data)//2:])
+'''
+
+
+def replay_two_builders():
+    """Two builders of the same uncached model: A's compiler has finished, B's compiler has written
+    half of its output when A publishes.  With private build locations the final name holds A's
+    complete library; with a shared location it holds B's partial one."""
+    import os
+    import sys
+    import time
+    import shutil
+    import tempfile
+    import threading
+    from sasmodels import kerneldll, core, generate
+    info = core.load_model_info("sphere")
+    src = generate.make_source(info)["dll"]
+    work = tempfile.mkdtemp(prefix="verif_c18b_")
+    old_path, old_cmd = kerneldll.SAS_DLL_PATH, kerneldll.compile_command
+    out = {}
+    try:
+        d0, d1, flags = (os.path.join(work, n) for n in ("real", "cache", "flags"))
+        for d in (d0, d1, flags):
+            os.makedirs(d)
+        kerneldll.SAS_DLL_PATH = d0
+        real = kerneldll.make_dll(src, info, dtype=generate.F64)
+        script = os.path.join(work, "cc.py")
+        open(script, "w").write(SCRIPT2)
+        kerneldll.SAS_DLL_PATH = d1
+        kerneldll.compile_command = lambda source, output: [sys.executable, script, real, output, flags]
+        final = kerneldll.dll_path(info.id + "_" + generate.tag_source(src), generate.F64)
+        errs = {}
+
+        def builder(name):
+            try:
+                kerneldll.make_dll(src, info, dtype=generate.F64)
+            except Exception as exc:   # noqa
+                errs[name] = repr(exc)[:160]
+
+        def wait(name):
+            t0 = time.time()
+            while not os.path.exists(os.path.join(flags, name)) and time.time() - t0 < 30:
+                time.sleep(0.01)
+        ta = threading.Thread(target=builder, args=("A",))
+        ta.start()
+        wait("done0")
+        tb = threading.Thread(target=builder, args=("B",))
+        tb.start()
+        wait("half1")
+        open(os.path.join(flags, "release0"), "w").close()
+        ta.join(60)
+        out["final_exists_after_A_published"] = os.path.exists(final)
+        out["size_complete"] = os.path.getsize(real)
+        if out["final_exists_after_A_published"]:
+            out["size_of_final_after_A_published"] = os.path.getsize(final)
+        open(os.path.join(flags, "go1"), "w").close()
+        tb.join(60)
+        out["builder_exceptions"] = errs
+        out["final_size_at_end"] = os.path.getsize(final) if os.path.exists(final) else None
+    finally:
+        kerneldll.SAS_DLL_PATH, kerneldll.compile_command = old_path, old_cmd
+        shutil.rmtree(work, ignore_errors=True)
+    bad = (out.get("size_of_final_after_A_published") not in (None, out.get("size_complete"))
+           or bool(out.get("builder_exceptions")) or out.get("final_size_at_end") != out.get("size_complete"))
+    return bad, {"call": "two concurrent make_dll(<sphere>) with a scripted compiler: A finished, B half way, A publishes",
+                 "real": out, "spec": "the final name holds a complete library as soon as it exists; both builders succeed"}
+
+
 def scripted_schedules(reg, tier):
     """Bounded stand-in for the schedule / crash-point quantifier: real processes, scripted compiler."""
     where = "sasmodels/kerneldll.py:make_dll"
@@ -332,6 +506,20 @@ def scripted_schedules(reg, tier):
     else:
         reg.passed(oid, function=where, engine="runtime-contract", kind="bounded", backend="cpython",
                    bound="one builder, compiler stopped half way then killed; observer checks the final name")
+    bad, info = replay_two_builders()
+    oid = "%s.scripted.two_builders_one_finished_one_half_way" % PROP
+    if bad:
+        reg.fail(oid, info, function=where, engine="runtime-contract", kind="bounded")
+    else:
+        reg.passed(oid, function=where, engine="runtime-contract", kind="bounded", backend="cpython",
+                   bound="two builders, A's compiler finished, B's half way when A publishes")
+    bad, info = replay_killed_compiler()
+    oid = "%s.scripted.killed_compiler_is_a_failed_compile" % PROP
+    if bad:
+        reg.fail(oid, info, function="sasmodels/kerneldll.py:compile_model", engine="runtime-contract", kind="bounded")
+    else:
+        reg.passed(oid, function="sasmodels/kerneldll.py:compile_model", engine="runtime-contract", kind="bounded",
+                   backend="cpython", bound="compiler writes 100 bytes then is killed with SIGKILL")
     bad, info = concurrent_first_use(8 if tier == "thorough" else 4)
     oid = "%s.scripted.concurrent_first_use_all_processes_correct" % PROP
     if bad:
@@ -384,6 +572,7 @@ def concurrent_first_use(nproc):
 
 def check(reg, tier):
     make_dll_atomicity(reg)
+    compile_model_contract(reg)
     string_lemma(reg)
     invariant_lemma(reg)
     load_path(reg)
